@@ -69,6 +69,36 @@ theorem next_valid_run_succeeds (npy : Bool) (w : World) (ops : List Op) :
     (step npy (run npy w ops) (.sample .valid true)).2 = .ok := by
   simp [step]
 
+/-! ### several paths: an operation aimed at one path never touches another -/
+
+theorem stepAt_frame (npy : Bool) (d : Disk) (p : Nat) (o : Op) (q : Nat) (hq : q ≠ p) :
+    (stepAt npy d (p, o)).1 q = d q := by
+  simp [stepAt, setPath, hq]
+
+/-- **every sequence of operations on any paths**: a path that exists, and at which no operation
+    with `overwrite = True` is aimed, keeps its file and sidecar — whatever is aimed (with or
+    without consent, valid or invalid) at other paths, e.g. by a sampler object that still holds
+    this path's handle from an earlier run -/
+theorem no_consent_no_change_any_path (npy : Bool) (d : Disk) (ops : List (Nat × Op)) (q : Nat)
+    (hc : ∀ po ∈ ops, po.1 = q → po.2.consents = false) (hex : exists_ (d q) npy = true) :
+    (runAt npy d ops q).file = (d q).file ∧ (runAt npy d ops q).sidecar = (d q).sidecar := by
+  induction ops generalizing d with
+  | nil => exact ⟨rfl, rfl⟩
+  | cons po rest ih =>
+    obtain ⟨p, o⟩ := po
+    have hstep : ((stepAt npy d (p, o)).1 q).file = (d q).file ∧ ((stepAt npy d (p, o)).1 q).sidecar = (d q).sidecar := by
+      by_cases hpq : q = p
+      · subst hpq
+        have := step_no_consent npy (d q) o (hc (q, o) (List.mem_cons_self) rfl) hex
+        simpa [stepAt, setPath] using this
+      · rw [stepAt_frame npy d p o q hpq]; exact ⟨rfl, rfl⟩
+    have hex' : exists_ ((stepAt npy d (p, o)).1 q) npy = true := by
+      simp only [exists_] at hex ⊢
+      rw [hstep.1, hstep.2]; exact hex
+    have := ih (stepAt npy d (p, o)).1 (fun po' h' => hc po' (List.mem_cons_of_mem _ h')) hex'
+    simp only [runAt, List.foldl_cons] at this ⊢
+    exact ⟨this.1.trans hstep.1, this.2.trans hstep.2⟩
+
 /-! ### non-vacuity -/
 example : exists_ { file := some 0, sidecar := none, handles := 0, fresh := 1 } false = true := by decide
 example : (run false { file := some 0, sidecar := none, handles := 0, fresh := 1 }
